@@ -1704,6 +1704,102 @@ def canonicalise(tree, known_functions=None):
     return tree
 
 
+def _dedupe_inlined_runs(tree):
+    """After helper inlining the same pure helper may have been expanded twice in one block (once where its value is used, once
+    inside another inlined helper that calls it): two runs of statements that define one local each and are identical up to that
+    local's name, with nothing the run reads written in between.  The second run is dropped and its local renamed to the first's -
+    the value is the same object of the same computation.  Only locals created by inlining (`name__hK`) are merged."""
+    n = 0
+
+    def defined_name(run):
+        names = set()
+        for st in run:
+            for x in ast.walk(st):
+                if isinstance(x, ast.Name) and isinstance(x.ctx, ast.Store):
+                    names.add(x.id)
+                if isinstance(x, (ast.Call,)) and isinstance(x.func, ast.Attribute) and x.func.attr in (
+                        "append", "extend", "sort", "pop", "insert", "remove", "clear", "update", "fill", "resize"):
+                    return None
+                if isinstance(x, (ast.Subscript, ast.Attribute)) and isinstance(x.ctx, ast.Store):
+                    return None
+        return next(iter(names)) if len(names) == 1 else None
+
+    def reads(run, own):
+        return {x.id for st in run for x in ast.walk(st) if isinstance(x, ast.Name) and x.id != own} | \
+               {ast.unparse(x) for st in run for x in ast.walk(st) if isinstance(x, ast.Attribute)}
+
+    def norm(run, own):
+        class Rn(ast.NodeTransformer):
+            def visit_Name(self, x):
+                return ast.Name(id="X__", ctx=x.ctx) if x.id == own else x
+        return [ast.dump(Rn().visit(copy.deepcopy(st))) for st in run]
+
+    def runs_of(block):
+        """maximal runs [start, end) of consecutive statements that all define the same single inlined local"""
+        out, i = [], 0
+        while i < len(block):
+            nm = defined_name([block[i]]) if isinstance(block[i], (ast.Assign, ast.If)) else None
+            if nm is None or "__h" not in nm:
+                i += 1
+                continue
+            j = i + 1
+            while j < len(block) and isinstance(block[j], (ast.Assign, ast.If)) and defined_name([block[j]]) == nm:
+                j += 1
+            out.append((i, j, nm))
+            i = j
+        return out
+
+    for node in ast.walk(tree):
+        for fld in ("body", "orelse"):
+            block = getattr(node, fld, None)
+            if not (isinstance(block, list) and block and isinstance(block[0], ast.stmt)):
+                continue
+            changed = True
+            while changed:
+                changed = False
+                rs = runs_of(block)
+                for a in range(len(rs)):
+                    for b in range(a + 1, len(rs)):
+                        (i1, j1, n1), (i2, j2, n2) = rs[a], rs[b]
+                        if n1 == n2 or norm(block[i1:j1], n1) != norm(block[i2:j2], n2):
+                            continue
+                        rd = reads(block[i1:j1], n1)
+                        between = block[j1:i2]
+                        written = set()
+                        for st in between:
+                            for x in ast.walk(st):
+                                if isinstance(x, ast.Name) and isinstance(x.ctx, ast.Store):
+                                    written.add(x.id)
+                                if isinstance(x, (ast.Attribute, ast.Subscript)) and isinstance(x.ctx, ast.Store):
+                                    bb = x
+                                    while isinstance(bb, (ast.Attribute, ast.Subscript)):
+                                        bb = bb.value
+                                    if isinstance(bb, ast.Name):
+                                        written.add(bb.id)
+                                    written.add(ast.unparse(x))
+                                if isinstance(x, ast.Call) and isinstance(x.func, ast.Attribute):
+                                    rb = x.func.value
+                                    while isinstance(rb, (ast.Attribute, ast.Subscript)):
+                                        rb = rb.value
+                                    if isinstance(rb, ast.Name) and rb.id in ("self", "cls") and x.func.attr not in ("copy", "posterior"):
+                                        written.add("<self-call>")       # a method of the receiver may change the state the run reads
+                        if written & (rd | {n1}) or ("<self-call>" in written and any(r.startswith("self.") for r in rd)):
+                            continue
+
+                        class Rn2(ast.NodeTransformer):
+                            def visit_Name(self, x):
+                                return ast.copy_location(ast.Name(id=n1, ctx=x.ctx), x) if x.id == n2 else x
+                        del block[i2:j2]
+                        for k in range(i2, len(block)):
+                            block[k] = Rn2().visit(block[k])
+                        n += 1
+                        changed = True
+                        break
+                    if changed:
+                        break
+    return n
+
+
 def canonicalise_program(trees, known_by_rel, params_by_rel=None):
     """P1-P4 over every parsed module; P4 sees the whole program (helpers inherited across files)."""
     for rel, tree in trees.items():
@@ -1725,6 +1821,7 @@ def canonicalise_program(trees, known_by_rel, params_by_rel=None):
         if n_inl:
             _propagate_inlined_aliases(tree)
             _coalesce_result_locals(tree)
+            _dedupe_inlined_runs(tree)
         _Polarity().visit(tree)
         tree.body = _restructure(tree.body)
         ast.fix_missing_locations(tree)
